@@ -54,6 +54,9 @@ CHECKS = {
  'C16': ('Hypothesis-generated clique sets: validity predicate (finite, >=0, sums to total) on arbitrary structures incl. warm second calls; differential against the brute-force joint on constructed junction-tree-structured clique sets (GBP) and tree factor graphs (LBP)',
          'Generated-input search over structures (loops, nested separators up to four region levels, forests, unary factors), potentials, totals (incl. re-assigned on the object) and sweep counts.',
          'Exactness clause uses lexicographically ordered distinct cliques with potentials on the maximal cliques (the premise of the statement); FactorGraph.project is only queried on covered attributes.'),
+ 'C17': ('Hypothesis-generated region structures / potentials / damping vs an independent dual solver (L-BFGS+BFGS) of the convexified free energy on an independently built region closure; metamorphic re-listing of cliques for non-converging runs',
+         'Generated-input search; conditional on the convergence the statement presupposes (primal feasibility <= 1e-9*total within 20000 sweeps, ~99% of cases on the current tree; the rest are inconclusive unless the alphabetically re-listed problem converges, which is a violation).',
+         'Trusts the dual solver only when its gradient norm is < 1e-8 (otherwise inconclusive).'),
 }
 NOT_YET = 'check not built yet (work in progress in this session); see DESIGN.md for the planned check'
 
